@@ -6,6 +6,8 @@ var specs = map[string]*checkSpec{
 		rule: "BFS over histories of level/registry operations (SetLevel on any logger, package SetLevel, RegisterLevel), de-duplicated on the dump of all gating-relevant globals; in every reached state the full matrix logger level x severity x public entry point (x format) is probed against the reference admission rule; distinct = distinct (logger level, severity, debug mode, wrote) outcomes"},
 	"C03": {id: "C03", level: "model_checking",
 		rule: "BFS over histories of the 41 writer-configuration operations (methods; first step also as New(...) options) from 3 roots, de-duplicated on the logger's writer lists by identity; every transition is compared with the reference semantics of the operation, every reached state is probed with one record per severity class (9) and the per-writer deliveries (3 pool writers, parent writer, stdout, stderr) compared with the reference selection; distinct = distinct configurations reached"},
+	"C04": {id: "C04", level: "model_checking",
+		rule: "full product of the per-layer alphabets (L1 message bytes and critical pairs, L2 key x value kind incl. special values, L3 attribute lists over representatives, L4 group shapes x positions) x caller on/off x named/unnamed logger; every record is emitted by the real logger in JSON mode and decoded with the encoding/json based oracle; every enumerated input is distinct; distinct_outcomes = distinct payloads"},
 	"C19": {id: "C19", level: "model_checking",
 		rule: "BFS over histories of the ~57-op buffer alphabet from 5 roots, PrintCtx and bytes.Buffer driven in lock-step; a state is the implementation's full internal tuple (content, off, len, cap, lastRead); distinct = distinct canonical states reached"},
 }
